@@ -4,6 +4,8 @@ plausible and implausible entries x gender x precision x error class."""
 import re, itertools, math
 from fractions import Fraction
 from decimal import Decimal
+from vlib import concpass
+from checks import crossapi
 from vlib import common, rxmc
 from vlib.common import Report, Violation, HarnessError, Acc, pmap, merge
 from checks import c10
@@ -366,10 +368,14 @@ def run(tier):
                         'fixed-duration races and custom scoring events: only string-or-given-error and idempotence are asserted']
     if len(codes) < 60:
         raise HarnessError('vacuous: %d codes' % len(codes))
+    crossapi.part(rep, PID, tier)
+    concpass.part(rep, PID, tier)
     return rep.finish()
 
 
 def replay(rec):
+    if concpass.is_conc(rec):
+        return concpass.replay(rec)
     G = setup('quick')
     c = rec['case']
     klass = CustomError if c['error_class'] == 'CustomError' else ValueError
